@@ -237,9 +237,15 @@ func (c *Ctx) resetPath(p []int) {
 	}
 	c.depthMax = 400
 	c.mapOrderMax = c.ex.spec.Params["engine.maporder"]
+	c.preemptEverywhere = c.ex.spec.Params["engine.preempt"] == 1
+	c.maxPreempt = defaultMaxPreempt
+	if v, ok := c.ex.spec.Params["engine.maxpreempt"]; ok {
+		c.maxPreempt = v
+	}
 	c.extra = nil
 	c.bypass = false
 	c.explicitInit = false
+	c.noTrack = 0
 }
 
 func (c *Ctx) runPath(p []int) (outcome string) {
